@@ -308,7 +308,7 @@ def check_filters(ctx, case):
       so = d.call({"op": "spe_overwrite", "is_eps": False, "lie": rs["lie"], "values": rs["values"], "fails": [bool(x) for x in fails]})
       mv = [float(x) for x in unfrl(so["values"])]
       tol = [8 * EPS * (abs(a * w[0]) + abs(b * w[1])) + 1e-300 for a, b in vals.tolist()]
-      if not (eq_exact(unfrm(rs["points"]), out_spe[0]) and all(abs(a - b) <= t + 8 * EPS * abs(ml) for a, b, t in zip(mv, out_spe[1], tol))):
+      if not (eq_exact(unfrm(rs["points"]), out_spe[0]) and all(abs(a - b) <= t + 8 * EPS * (abs(ml) + sum(abs(float(l) * float(x)) for l, x in zip(lies, w))) for a, b, t in zip(mv, out_spe[1], tol))):
         ctx.violation("C14 " + "filter_convex_combination (SPE) differs from the model (weighted sum, failures set to the lie)", {"case": case})
       # variances of the weighted sum via the direct function
       o2 = mm.filter_convex_combination(info, pts, vals, vars_, fails, lies)
